@@ -248,6 +248,34 @@ Definition run_carc (params : list Z) (rows : list (list Z)) : list (list Z) :=
   | None => [[-2]%Z]
   end.
 
+(* ---- which module's code changed the counts (case id 210) ---------------------------------------------------------
+   the harness builds handles of module 1 through the published three-field layout with COUNTING clone/drop functions
+   of its own; per operation it reports how often each of them ran.  The model's event log says the same thing. *)
+Definition incs_by (m : nat) (ev : list aev) : nat :=
+  length (filter (fun e => match e with AInc _ m' => m' =? m | _ => false end) ev).
+Definition decs_by (m : nat) (ev : list aev) : nat :=
+  length (filter (fun e => match e with ADec _ m' => m' =? m | _ => false end) ev).
+Definition calls_of (m : nat) (ev : list aev) : list Z := [nz (incs_by m ev); nz (decs_by m ev)].
+
+Fixpoint arun_calls_raw (s : st) (ops : list aop) : list (list Z) * option st :=
+  match ops with
+  | [] => ([], Some s)
+  | o :: os => match astep s o with
+               | Ok (s', r, ev) => let '(rows, fin) := arun_calls_raw s' os in (r :: calls_of 1 ev :: rows, fin)
+               | _ => ([[-1]%Z], None)
+               end
+  end.
+Definition arun_calls (s : st) (ops : list aop) : list (list Z) :=
+  match arun_calls_raw s ops with
+  | (rows, Some s') => rows ++ fst (arun_calls_raw s' (map ADrop (seq 0 (length (pool s')))))
+  | (rows, None) => rows
+  end.
+Definition run_carc_calls (params : list Z) (rows : list (list Z)) : list (list Z) :=
+  match decode_rows decode_aop rows with
+  | Some ops => arun_calls init ops
+  | None => [[-2]%Z]
+  end.
+
 (* ---- what ONE thread observes while other threads change the counts (case id 110) ------------------------------
    every thread runs the same history on a pool of its own over SHARED allocations; the result rows and the kinds of
    its handles do not depend on the counts (proofs/ArcProofs.v: thread_view), so they are those of the sequential run *)
